@@ -282,6 +282,62 @@ impl World {
         self.kept_rbufs.push(b);
     }
 
+    /// Edit a kept pool buffer the way an application consumes its contents;
+    /// the edit must not move the buffer (C08/C15: the slot given back on
+    /// release is the slot the kernel filled).
+    pub fn edit_rbuf(&mut self, n: usize, rng: &mut crate::rng::Rng) {
+        let mut moved = None;
+        let what;
+        {
+            let _g = alloc::MonGuard::new();
+            let b = &mut self.kept_rbufs[n];
+            let (before, len) = (b.as_slice().as_ptr().addr(), b.len());
+            what = match rng.below(6) {
+                0 if len > 0 => {
+                    let k = 1 + rng.below(len as u64) as usize;
+                    alloc::a10(|| b.remove(..k));
+                    format!("remove(..{k})")
+                }
+                1 if len > 0 => {
+                    let k = rng.below(len as u64) as usize;
+                    alloc::a10(|| b.remove(k..));
+                    format!("remove({k}..)")
+                }
+                2 if len > 1 => {
+                    let k = rng.below(len as u64 - 1) as usize;
+                    let e = k + 1 + rng.below((len - k - 1) as u64) as usize;
+                    alloc::a10(|| b.remove(k..e));
+                    format!("remove({k}..{e})")
+                }
+                3 => {
+                    let k = rng.below(len as u64 + 1) as usize;
+                    alloc::a10(|| b.truncate(k));
+                    format!("truncate({k})")
+                }
+                4 => {
+                    alloc::a10(|| b.clear());
+                    "clear".to_string()
+                }
+                _ => {
+                    let room = b.capacity().saturating_sub(len);
+                    let k = rng.below(room.min(16) as u64 + 1) as usize;
+                    let extra = vec![0xE7u8; k];
+                    let _ = alloc::a10(|| b.extend_from_slice(&extra));
+                    format!("extend({k})")
+                }
+            };
+            let after = b.as_slice().as_ptr().addr();
+            if len > 0 && !b.is_empty() && after != before {
+                moved = Some((before, after));
+            }
+            self.kept_sums[n] = (fnv(0, b.as_slice()), b.len(), if b.is_empty() { self.kept_sums[n].2 } else { after });
+        }
+        self.trace.push(format!("editbuf:{what}"));
+        if let Some((before, after)) = moved {
+            self.violation("C08", "pool-buffer-start-moved".to_string(), format!("{what} on a ReadBuf moved its start from {before:#x} to {after:#x}: the buffer given back on release is no longer the slot the kernel filled"));
+        }
+    }
+
     pub fn drop_rbuf(&mut self, n: usize) {
         let b = self.kept_rbufs.swap_remove(n);
         self.kept_sums.swap_remove(n);
